@@ -242,6 +242,35 @@ def h_registry(eng):
     eng.oblige(f"{U}/post.I_cb", I_cb(t2cb.snapshot()))
 
 
+def h_add_cb_unknown(eng):
+    """task.add_done_callback on a task pyscript keeps no record of (it has ended - run_coro forgot it - or it never was a
+    pyscript task): no record may be created (nothing would ever forget it again, and the callback would never run), so the
+    call has to be refused."""
+    it, w, mod, Fn, S = setup(eng)
+    t2cb = S["t2cb"]
+    U = "C14/registry/task_add_done_callback"
+    task = z3.Const("task", TaskS)
+    cb = z3.Const("callback", ObjS)
+    T0 = t2cb.snapshot()
+    eng.assume(I_cb(T0))
+    eng.assume(z3.Not(z3.Select(T0["dom"], task)))
+    ctx = [None, SV(z3.Const("ast_ctx", ObjS))][eng.choose(2, "ast_ctx-given")]
+    k, v = run_catching(it, lambda: it.call(it.getattr_(Fn, "task_add_done_callback"), [SV(task), ctx, SV(cb)], {}))
+    eng.cover(f"unknown:{k}")
+    T1 = t2cb.snapshot()
+    ob = eng.oblige(f"{U}/unknown-task.no-record-is-created", z3.Not(z3.Select(T1["dom"], task)))
+    if ob.status == "refuted":
+        ob.witness = {"signature": "late-done-callback"}
+    eng.oblige(f"{U}/unknown-task.refused", k == "exc" and v.cls.name == "KeyError")
+    eng.oblige(f"{U}/unknown-task.frame", Forall([TaskS], lambda t: z3.Implies(t != task, z3.And(
+        z3.Select(T1["dom"], t) == z3.Select(T0["dom"], t), z3.Select(T1[".cb:dom"], t) == z3.Select(T0[".cb:dom"], t))), "t"))
+
+
+def replay_late_cb(wj):
+    from replay.native import run_native
+    return run_native("c14_late_done_callback", wj)
+
+
 def h_cancel(eng):
     it, w, mod, Fn, S = setup(eng)
     ours, cur = S["ours"], S["cur"]
@@ -385,6 +414,7 @@ def harnesses():
         Harness("run_coro.exit", h_run_coro, units=[(F_PY, "Function.run_coro")], replay=replay_run_coro),
         Harness("registry", h_registry, units=[(F_PY, "Function.task_done_callback_ctx"), (F_PY, "Function.task_add_done_callback"),
                                                (F_PY, "Function.user_task_remove_done_callback")]),
+        Harness("registry.unknown-task", h_add_cb_unknown, units=[(F_PY, "Function.task_add_done_callback")], replay=replay_late_cb),
         Harness("user_task_cancel", h_cancel, units=[(F_PY, "Function.user_task_cancel")]),
         Harness("task.create", h_task_create, units=[(T_PY, "TrigTime.init")]),
         Harness("task.executor", h_executor, units=[(T_PY, "TrigTime.user_task_executor")]),
